@@ -65,7 +65,8 @@ def run(ctx: common.Ctx):
         'evaluated by the Lean driver); each case is re-run with binding limits '
         '(max-variants-per-node 1-3, additional-variants-per-misc 0-1) and with 1-3 injected timeouts '
         '(guarded hook) over several limit schedules: those runs may only lose peptides, and the '
-        'limits of the completing attempt must equal the Lean model of caller_reducer. '
+        'limits of the completing attempt must equal the Lean model of caller_reducer; fusion and '
+        'circRNA inputs (one backbone each) against Spec.callBackbone / Spec.callCirc. '
         'non-trivial = run reporting >= 1 peptide')
     base = dict(vary=True, per_tx=(1, 7), max_size=6, window=24, witness=False, as_frac=0.3)
     res = cv_checks.explore(ctx, ctx.n(200, 4000),
@@ -78,6 +79,24 @@ def run(ctx: common.Ctx):
     enz = [e for e in cv_checks.enzymes_all() if cv_checks.has_lookahead(e)]
     res = cv_checks.explore(ctx, ctx.n(100, 2000), dict(base, exception=None, enzymes=enz))
     judge(ctx, res, 'lookahead-enzymes')
+    for kind, n in (('fusion', ctx.n(90, 1500)), ('circ', ctx.n(90, 1500))):
+        bres = cv_checks.explore_backbone(ctx, kind, n, dict(exception=None))
+        for r in bres:
+            if 'S' not in r:
+                continue
+            ctx.evaluated(kind, str(r['seed']), bool(r['real_set']),
+                          dict(r['desc'], n_reported=len(r['real_set'])))
+            extra = r['real_set'] - r['S']
+            if not extra:
+                continue
+            key = None
+            if kind == 'circ' and 'S_mixed' in r and not (extra - r['S_mixed']):
+                key = cv_checks.KF_CIRC
+            ctx.add_violation(
+                f'{len(extra)} reported {kind} peptide(s) are not products of the backbone carrying one '
+                f'compatible combination of the records, e.g. {sorted(extra)[:3]} (headers '
+                f'{[r["headers"][p] for p in sorted(extra)[:2]]})',
+                dict(r['desc'], kind='unrealizable-' + kind, extra=sorted(extra)[:20]), finding_key=key)
     ctx.coverage['worker_stats'] = {'trypsin-noexc': s1, 'trypsin-exc': s2,
                                     'lookahead-enzymes': ctx.coverage['worker_stats']}
     ctx.assumptions += [
